@@ -61,6 +61,9 @@ type pcase struct {
 	start    int   // manual paging: index of the page whose state the caller supplies (0: no state)
 	spec     bool  // idempotent query with SimpleSpeculativeExecution{NumAttempts: 1, TimeoutDelay: 50ms}
 	cancelAt int   // > 0: Query.WithContext(ctx); the caller cancels ctx itself after having seen this many rows
+	opt      int   // index into optionSets: the options the caller puts on the query (0: the options of the original scenarios)
+	mut      int   // caller operation on the ORIGINAL *Query after Iter() returned (mutNone: the caller leaves it alone)
+	mutAt    int   // ... performed by the consumer thread after it has seen this many rows (0: right after Iter(), before the first row)
 }
 
 func (p pcase) String() string {
@@ -71,7 +74,157 @@ func (p pcase) String() string {
 	if p.cancelAt > 0 {
 		s += fmt.Sprintf(" caller-cancels-after-row-%d", p.cancelAt)
 	}
+	if p.opt != 0 {
+		s += " options{" + optionSets[p.opt].String() + "}"
+	}
+	if p.mut != mutNone {
+		s += fmt.Sprintf(" caller-does-%s-after-row-%d", mutName[p.mut], p.mutAt)
+	}
 	return s
+}
+
+// ---- query options dimension: what the caller puts on the query; EVERY page request must carry exactly these
+
+const (
+	serialNone    = iota // no serial consistency anywhere: the field is absent from every request
+	serialQuery          // Query.SerialConsistency(gocql.Serial)
+	serialQueryLS        // Query.SerialConsistency(gocql.LocalSerial)
+	serialCluster        // ClusterConfig.SerialConsistency = gocql.LocalSerial, inherited by the query
+)
+
+const (
+	tsDefault = iota // cfg.DefaultTimestamp (on): every request carries a client timestamp (value from the clock: presence compared)
+	tsOff            // Query.DefaultTimestamp(false): no request carries one
+	tsFixed          // Query.WithTimestamp(fixedTS): every request carries exactly this value
+)
+
+const fixedTS int64 = 1234567890123456
+
+type optset struct {
+	cons   gocql.Consistency
+	serial int
+	ts     int
+}
+
+func (o optset) String() string {
+	return fmt.Sprintf("cons=%v serial=%s ts=%s", o.cons, []string{"none", "Serial", "LocalSerial", "cluster:LocalSerial"}[o.serial], []string{"default", "off", "fixed"}[o.ts])
+}
+
+func (o optset) wantSerial() (uint16, bool) {
+	switch o.serial {
+	case serialQuery:
+		return uint16(gocql.Serial), true
+	case serialQueryLS, serialCluster:
+		return uint16(gocql.LocalSerial), true
+	}
+	return 0, false
+}
+
+// optionSets[0] is what the original scenarios use (LOCAL_QUORUM, no serial consistency, default timestamp).
+var optionSets = func() []optset {
+	var out []optset
+	for _, c := range []gocql.Consistency{gocql.LocalQuorum, gocql.One} {
+		for _, ser := range []int{serialNone, serialQuery, serialQueryLS, serialCluster} {
+			for _, ts := range []int{tsDefault, tsOff, tsFixed} {
+				out = append(out, optset{c, ser, ts})
+			}
+		}
+	}
+	return out
+}()
+
+func findOpt(o optset) int {
+	for i, x := range optionSets {
+		if x == o {
+			return i
+		}
+	}
+	panic("harness: no such option set")
+}
+
+func allOpts() []int {
+	out := make([]int, len(optionSets))
+	for i := range out {
+		out[i] = i
+	}
+	return out
+}
+
+// ---- caller operations on the original *Query between Iter() and the consumption of later pages
+
+const (
+	mutNone = iota
+	mutBind
+	mutConsistency
+	mutPageSize
+	mutSerial
+	mutTimestamp
+	mutRebindAll // Bind + Consistency + PageSize + SerialConsistency + WithTimestamp: the object is prepared for the next lookup
+	mutRelease
+)
+
+var mutName = []string{"nothing", "Bind(other)", "Consistency(other)", "PageSize(other)", "SerialConsistency(other)", "WithTimestamp(other)", "rebind+all-options", "Release()"}
+
+var allMuts = []int{mutBind, mutConsistency, mutPageSize, mutSerial, mutTimestamp, mutRebindAll, mutRelease}
+
+func applyMut(q *gocql.Query, m int, cf conf) {
+	if m == mutBind || m == mutRebindAll {
+		if cf.prep == prepNo {
+			q.Bind() // the unprepared statement has no markers
+		} else {
+			q.Bind(boundValue + 1)
+		}
+	}
+	if m == mutConsistency || m == mutRebindAll {
+		q.Consistency(gocql.All)
+	}
+	if m == mutPageSize || m == mutRebindAll {
+		q.PageSize(cf.pageSize + 7)
+	}
+	if m == mutSerial || m == mutRebindAll {
+		q.SerialConsistency(gocql.Serial) // (the mutation cases use option sets with serial none / LocalSerial)
+	}
+	if m == mutTimestamp || m == mutRebindAll {
+		q.WithTimestamp(fixedTS + 1)
+	}
+	if m == mutRelease {
+		q.Release() // allowed once the query has been executed (Iter() has returned)
+	}
+}
+
+// withOpts: every script x every option set
+func withOpts(cs []pcase, opts []int) []pcase {
+	var out []pcase
+	for _, c := range cs {
+		for _, o := range opts {
+			c.opt = o
+			out = append(out, c)
+		}
+	}
+	return out
+}
+
+// withMuts: every script x option set x caller operation x position (after 0..all rows seen; consumers that take the
+// whole result in one call - SliceMap - can only interpose right after Iter(): those cases are generated separately)
+func withMuts(ss [][]int, opts []int, muts []int, onlyAt0 bool) []pcase {
+	var out []pcase
+	for _, s := range ss {
+		total := 0
+		for _, n := range s {
+			total += n
+		}
+		if onlyAt0 {
+			total = 0
+		}
+		for _, o := range opts {
+			for _, m := range muts {
+				for at := 0; at <= total; at++ {
+					out = append(out, pcase{script: s, opt: o, mut: m, mutAt: at})
+				}
+			}
+		}
+	}
+	return out
 }
 
 func product(prefetch []float64, pageSize []int, prep []int, consumer []int) []conf {
@@ -176,6 +329,8 @@ type dataReq struct {
 	hasState bool
 	state    []byte
 	skipMeta bool
+	hasTS    bool
+	ts       int64
 	page     int    // page served (-1: the state is none the node ever handed out)
 	fate     string // ok / error / never / drop
 	at       time.Duration
@@ -250,6 +405,9 @@ func (w *world) handler() vnode.Handler {
 		d.hasState = params.HasPagingState
 		d.state = append([]byte(nil), params.PagingState...)
 		d.skipMeta = params.SkipMetadata
+		if params.Timestamp != nil {
+			d.hasTS, d.ts = true, *params.Timestamp
+		}
 		d.at = vs.Clock()
 		// the node is synchronous: the handler runs inside the Write of the requesting thread
 		d.by = "c"
@@ -458,6 +616,10 @@ func (s *c15scn) body() {
 	cfg.HostDialer = cl.dialer()
 	cfg.Consistency = gocql.Quorum
 	cfg.DisableSkipMetadata = cf.prep == prepNoSkip
+	opts := optionSets[pc.opt]
+	if opts.serial == serialCluster {
+		cfg.SerialConsistency = gocql.LocalSerial
+	}
 	vs.Quiet(true)
 	sess, err := gocql.VerifNewSession(*cfg, true)
 	vs.Quiet(false)
@@ -473,7 +635,19 @@ func (s *c15scn) body() {
 		q = sess.Query(stmtPrepared, boundValue)
 	}
 	// options that differ from the session defaults, so that a next-page request that lost them is visible
-	q = q.Consistency(gocql.LocalQuorum).PageSize(cf.pageSize).Prefetch(cf.prefetch)
+	q = q.Consistency(opts.cons).PageSize(cf.pageSize).Prefetch(cf.prefetch)
+	switch opts.serial {
+	case serialQuery:
+		q = q.SerialConsistency(gocql.Serial)
+	case serialQueryLS:
+		q = q.SerialConsistency(gocql.LocalSerial)
+	}
+	switch opts.ts {
+	case tsOff:
+		q = q.DefaultTimestamp(false)
+	case tsFixed:
+		q = q.WithTimestamp(fixedTS)
+	}
 	var supplied []byte
 	if s.manual {
 		if pc.start > 0 {
@@ -500,9 +674,27 @@ func (s *c15scn) body() {
 		}
 	}
 
+	// the caller's own operation on the ORIGINAL *Query once Iter() has returned: the iteration already started must
+	// not notice (it is performed by the consumer thread itself: a Query is not meant for concurrent use)
+	mutated := false
+	if pc.mut != mutNone && pc.mutAt > 0 {
+		inner := onRow
+		onRow = func(n int) {
+			inner(n)
+			if n == pc.mutAt {
+				mutated = true
+				applyMut(q, pc.mut, cf)
+			}
+		}
+	}
+
 	done := make(chan result, 1)
 	vs.GoNamed("consumer", func() {
 		it := q.Iter()
+		if pc.mut != mutNone && pc.mutAt == 0 {
+			mutated = true
+			applyMut(q, pc.mut, cf)
+		}
 		vs.Send(done, consume(it, cf.consumer, onRow))
 	})
 	r := vs.Recv[result](done)
@@ -594,6 +786,17 @@ func (s *c15scn) body() {
 		vs.Failf("c15:error-without-failed-fetch", "every page was served, no timer fired early, the caller did not cancel, but the iteration reported %v (first seen by %s): %s", r.err, r.firstErr, desc())
 	}
 
+	// every request must be decodable by a node that reads <query_parameters> in the order of the specification
+	// (the node stops serving a connection after an undecodable frame: the client then sees a timeout)
+	for _, ip := range ips {
+		for _, fe := range cl.nodes[ip].FrameErrors {
+			vs.Failf("c15:request-undecodable", "node %s could not decode a request (%s): %s", ip, fe, desc())
+		}
+	}
+	if pc.mut != mutNone && !mutated && r.err == nil && len(r.rows) >= pc.mutAt && cf.consumer != consSliceMap {
+		vs.Failf("harness:caller-operation-not-performed", "%s", desc())
+	}
+
 	// the request log
 	cur := first - 1 // highest page asked for so far
 	for i, d := range w.reqs {
@@ -603,6 +806,9 @@ func (s *c15scn) body() {
 		}
 		if d.options != w.reqs[0].options || d.stmt != w.reqs[0].stmt || d.kind != w.reqs[0].kind {
 			vs.Failf("c15:next-page-request-differs", "request %d is {%s %s %s}, the first was {%s %s %s}: %s", i, d.kind, d.stmt, d.options, w.reqs[0].kind, w.reqs[0].stmt, w.reqs[0].options, desc())
+		} else if opts.ts == tsFixed && d.hasTS && w.reqs[0].hasTS && d.ts != w.reqs[0].ts {
+			// a timestamp fixed by the caller (Query.WithTimestamp) is an option value, not a clock reading
+			vs.Failf("c15:next-page-request-differs", "request %d carries timestamp %d, the first carried %d (Query.WithTimestamp(%d)): %s", i, d.ts, w.reqs[0].ts, fixedTS, desc())
 		}
 		if d.page == cur+1 && d.page <= last {
 			cur = d.page
@@ -643,8 +849,15 @@ func (s *c15scn) body() {
 		if d.kind != wantKind || d.stmt != wantStmt {
 			vs.Failf("c15:first-request-wrong-statement", "first request is %s %s: %s", d.kind, d.stmt, desc())
 		}
-		if !strings.Contains(d.options, fmt.Sprintf("cons=%#x ", uint16(gocql.LocalQuorum))) || !strings.Contains(d.options, fmt.Sprintf(" pagesize=%d ", cf.pageSize)) {
+		if !strings.Contains(d.options, fmt.Sprintf("cons=%#x ", uint16(opts.cons))) || !strings.Contains(d.options, fmt.Sprintf(" pagesize=%d ", cf.pageSize)) {
 			vs.Failf("c15:first-request-wrong-options", "first request has {%s}: %s", d.options, desc())
+		}
+		// serial consistency and timestamp as the caller (or the cluster configuration) set them
+		if ser, ok := opts.wantSerial(); ok != strings.Contains(d.options, " serial=") || (ok && !strings.Contains(d.options, fmt.Sprintf(" serial=%#x ", ser))) {
+			vs.Failf("c15:first-request-wrong-options", "caller's options are {%s}, first request has {%s}: %s", opts, d.options, desc())
+		}
+		if d.hasTS != (opts.ts != tsOff) || (opts.ts == tsFixed && d.ts != fixedTS) {
+			vs.Failf("c15:first-request-wrong-options", "caller's options are {%s}, first request has timestamp present=%v value=%d: %s", opts, d.hasTS, d.ts, desc())
 		}
 		if d.skipMeta != (cf.prep == prepSkip) {
 			vs.Failf("c15:first-request-wrong-options", "skip_metadata=%v with %s: %s", d.skipMeta, prepName[cf.prep], desc())
@@ -794,6 +1007,40 @@ func scenarios(thorough bool) []*c15scn {
 	}
 	add(&c15scn{name: "wide-manual", confs: product([]float64{0, 1}, []int{3}, allPrep, allCons), cases: manualAll, manual: true, quick: onlyFaults, thor: b(1)})
 
+	// 1b. query options carried on every page: consistency x serial consistency (none / set on the query / inherited from
+	// the cluster configuration) x timestamp (default / off / fixed by the caller) = 24 option sets; every request of the
+	// iteration must be decodable by the reference decoder and carry exactly the first request's options, and the first
+	// one the caller's. Default schedule in the quick tier, plus one failing page in the thorough tier.
+	defaultOnly := vs.Bounds{}
+	optScripts := append(scripts(2, 2, []int{0, 1, 2}), []int{1, 0, 1}, []int{1, 1, 1})
+	add(&c15scn{name: "wide-options", confs: product([]float64{0, 1}, pageSizes, allPrep, allCons), cases: withOpts(autoCases(optScripts), allOpts()), quick: defaultOnly, thor: onlyFaults})
+	add(&c15scn{name: "wide-options-manual", manual: true, confs: product([]float64{0, 1}, []int{3}, allPrep, allCons),
+		cases: withOpts([]pcase{{script: []int{2, 1}, start: 0}, {script: []int{2, 1}, start: 1}, {script: []int{1, 0, 1}, start: 1}, {script: []int{1, 0, 1}, start: 2}}, allOpts()), quick: defaultOnly, thor: b(1)})
+	// 1c. the caller goes on using the ORIGINAL *Query once Iter() has returned (Bind other values, other consistency /
+	// page size / serial consistency / timestamp, all of these, Release()), right after Iter() or after any number of
+	// rows: the iteration already started must request its following pages exactly as it requested the first.
+	optPlain := 0
+	optRich := findOpt(optset{gocql.One, serialQueryLS, tsFixed})
+	{
+		mutScripts := append(scripts(2, 2, []int{0, 1, 2}), []int{1, 0, 1}, []int{1, 1, 1}, []int{2, 0, 1})
+		cs := cross(product([]float64{0, 0.5, 1}, []int{3}, []int{prepNo, prepSkip}, []int{consScan, consScanner, consMapScan}), withMuts(mutScripts, []int{optPlain, optRich}, allMuts, false))
+		cs = append(cs, cross(product([]float64{0, 0.5, 1}, []int{3}, []int{prepNo, prepSkip}, []int{consSliceMap}), withMuts(mutScripts, []int{optPlain, optRich}, allMuts, true))...)
+		add(&c15scn{name: "wide-caller-reuses-query", combos: cs, quick: defaultOnly, thor: onlyFaults})
+		// ... with the prefetch goroutine racing the caller's operation (schedule / timer / failure deviations)
+		var dm []combo
+		for _, m := range []int{mutBind, mutRebindAll, mutRelease} {
+			for at := 0; at <= 2; at++ {
+				dm = append(dm, combo{conf{0.5, 3, prepSkip, consScan}, pcase{script: []int{2, 1}, opt: optRich, mut: m, mutAt: at}})
+			}
+		}
+		for _, m := range []int{mutRebindAll, mutRelease} {
+			for at := 0; at <= 1; at++ {
+				dm = append(dm, combo{conf{0, 3, prepNo, consScanner}, pcase{script: []int{1, 0, 1}, opt: optPlain, mut: m, mutAt: at}})
+			}
+		}
+		add(&c15scn{name: "caller-reuses-query-deep", combos: dm, quick: b(1), thor: b(2)})
+	}
+
 	// 2. deep: schedule / timer / failure deviations up to T
 	scan := func(pf float64) conf { return conf{pf, 3, prepNo, consScan} }
 	// One scenario for all automatic-paging groups: the engine shards the search by the alternatives of the FIRST
@@ -908,10 +1155,16 @@ func main() {
 			"(prefetch 0/0.25/0.5/1, page size 3/100, unprepared QUERY / prepared EXECUTE with skip_metadata / prepared with cfg.DisableSkipMetadata, consumer Scan/Scanner/MapScan/SliceMap; manual paging: which page's state the caller supplies). "+
 			"Costed: a failing page fetch (ERROR frame / no reply -> timeout / connection dropped) at any page request costs F, scheduling deviations (the prefetch goroutine racing the consumer) cost P, early timers cost D, total <= T. "+
 			"Scenarios 'wide-*' cover the whole product with the default schedule plus one failing page (thorough: plus one deviation of any kind); the other scenarios take representative configurations to T=2 (quick) / T=3 (thorough); "+
-			"thorough 'all-interleavings+' explores every interleaving (P unbounded) of script [2,1] with prefetch. Free-choice alternatives per scenario: "+strings.Join(sizes, ", "),
+			"thorough 'all-interleavings+' explores every interleaving (P unbounded) of script [2,1] with prefetch. "+
+			"Further FREE dimensions of the case: the OPTIONS the caller puts on the query (consistency LOCAL_QUORUM/ONE x serial consistency none / Query.SerialConsistency(SERIAL) / (LOCAL_SERIAL) / inherited from ClusterConfig.SerialConsistency x timestamp default / DefaultTimestamp(false) / WithTimestamp(fixed) = 24 option sets, x page size 3/100 of the configuration), "+
+			"automatic and manual paging ('wide-options', 'wide-options-manual'): every request must be decodable by the reference decoder and carry the first request's statement, values and options (incl. serial consistency, presence and - when fixed - value of the timestamp), the first one the caller's; "+
+			"and an OPERATION OF THE CALLER on the original *Query once Iter() has returned (Bind(other values) / Consistency / PageSize / SerialConsistency / WithTimestamp / all of these / Release()) x the position (right after Iter(), or after each number of rows seen; SliceMap: right after Iter()) "+
+			"('wide-caller-reuses-query' default schedule, thorough + one failing page; 'caller-reuses-query-deep' T=1, thorough T=2: the prefetch goroutine races the operation): the following pages are requested exactly like the first. "+
+			"Free-choice alternatives per scenario: "+strings.Join(sizes, ", "),
 		[]string{"1 host, 1 connection, no control connection, protocol v4, request timeout 100ms, no retry policy, default timestamp on",
 			"the node answers a request according to the paging state it RECEIVES and logs statement/id, values, consistency, flags, page size, paging state (decoded by the independent reference codec)",
 			"stream-allocator atomics are not scheduling points (C08); map iteration order fixed; -race pass separate",
-			"page size does not constrain the script (a node may return fewer rows than the page size; scripts have <= 3 rows per page and page size >= 3)"},
-		defs, 60*time.Second, 40*time.Minute, nil) // thorough: the budget is a cap shared equally: 10 scenarios x 240 s; the largest need 90-230 s on a loaded machine, the whole tier 8-13 min
+			"page size does not constrain the script (a node may return fewer rows than the page size; scripts have <= 3 rows per page and page size >= 3)",
+			"the caller's operation on the original *Query is performed by the consuming thread itself (a Query is not used concurrently by the caller); Release() only after Iter() has returned"},
+		defs, 60*time.Second, 56*time.Minute, nil) // thorough: the budget is a cap shared equally: 14 scenarios x 240 s; the largest need 90-230 s on a loaded machine, the whole tier 8-13 min
 }
